@@ -1,2 +1,2 @@
 #include "c01_exec.h"
-namespace c01 { void run_lowfull(vh::Case& c, const stc::History& h) { exec_history<stc::Opt_low_full>(c, h, "lowfull"); } }
+namespace c01 { void run_lowfull(vh::Case& c, const stc::History& h, int sample) { exec_history<stc::Opt_low_full>(c, h, "lowfull", sample); } }
